@@ -6,7 +6,9 @@ import (
 	"io"
 	"os"
 	"os/exec"
+	"runtime/pprof"
 	"strings"
+	"sync/atomic"
 	"time"
 )
 
@@ -42,7 +44,36 @@ func StartDriver(path string) (*Driver, error) {
 }
 
 // Ask sends one line and returns the reply. A dead driver is an infrastructure failure.
+// ---- hang watchdog ----
+// The engines that drive the package under test step by step talk to the model all the time. If none of them has made a step
+// for watchdogLimit although nobody is waiting for the model, a call into the package under test does not return (a lock
+// that is never released, a channel nobody closes): the process dumps its goroutines and ends like a crashed one - a
+// verdict (crash), reached in minutes instead of at the engine's process timeout.
+var (
+	lastTouch     int64
+	inDriver      int32
+	watchdogLimit = 150 * time.Second
+)
+
+func touch() { atomic.StoreInt64(&lastTouch, time.Now().UnixNano()) }
+
+func startWatchdog() {
+	touch()
+	go func() {
+		for {
+			time.Sleep(3 * time.Second)
+			if atomic.LoadInt32(&inDriver) == 0 && time.Since(time.Unix(0, atomic.LoadInt64(&lastTouch))) > watchdogLimit {
+				fmt.Fprintf(os.Stderr, "fatal error: HANG - a call into the package under test has not returned for %s (goroutines follow)\n", watchdogLimit)
+				_ = pprof.Lookup("goroutine").WriteTo(os.Stderr, 1)
+				os.Exit(2)
+			}
+		}
+	}()
+}
+
 func (d *Driver) Ask(line string) string {
+	atomic.AddInt32(&inDriver, 1)
+	defer func() { touch(); atomic.AddInt32(&inDriver, -1) }()
 	if strings.ContainsAny(line, "\n\r") {
 		infra("driver line contains newline: %q", line)
 	}
